@@ -146,12 +146,38 @@ impl Prop for MissingAddress {
     }
 }
 
+// ------------------------------------------------------------ declared type under competing definitions
+
+/// "With the declared type": when the type name of an extern value is defined in several modules, the
+/// accessor must name the definition the scoping rules select.
+pub struct DeclaredType;
+impl Prop for DeclaredType {
+    type Case = crate::checks::c11::Case;
+    crate::prog_shrink!();
+    fn name(&self) -> String {
+        "C15/declared-type".into()
+    }
+    fn rule(&self) -> String {
+        "the module sets of C11 (one short name defined in several modules with distinct sizes, competing by-name and whole-module imports, optional local definition, shuffled module order), whose observer module declares `#[address(A)] extern gv: Name;`. Oracle (the one of C11/scoping, which includes the accessor): `get_gv()` returns `&'static mut <fully qualified path of the definition the scoping rules select>`; no binding => Err. Non-trivial as in C11".into()
+    }
+    fn gen(&self, t: &mut Tape) -> Self::Case {
+        crate::checks::c11::gen_case(t)
+    }
+    fn judge(&self, c: &Self::Case) -> Outcome {
+        crate::checks::c11::Scoping.judge(c)
+    }
+    fn show(&self, c: &Self::Case) -> Value {
+        crate::checks::c11::Scoping.show(c)
+    }
+}
+
 pub fn props() -> Vec<Box<dyn DynProp>> {
-    vec![Box::new(MissingAddress), Box::new(Accessors)]
+    vec![Box::new(MissingAddress), Box::new(Accessors), Box::new(DeclaredType)]
 }
 
 pub fn run(ctx: &mut Ctx) {
     let q = ctx.quick();
     ctx.run(&MissingAddress, &Params::new(if q { 3000 } else { 60_000 }, 6, 24));
     ctx.run(&Accessors, &Params::new(if q { 1500 } else { 50_000 }, 200, 2500).shrink(60));
+    ctx.run(&DeclaredType, &Params::new(if q { 10_000 } else { 300_000 }, 40, 400));
 }
